@@ -264,6 +264,12 @@ theorem toBool_state_spec {n : Nat} {regs : Nat → List Nat} {s s' : St} (r : R
     (res = false ↔ toBoolFalse c) ∧ ∀ u, absVar s' u = absVar s u :=
   toBool_eq (reach_good r).inv (valid_facts hv).1 e hc hz
 
+/-- the case maps of the current String.cpp (regenerated by tools/gen_str.py on every run): `toLowerCase`
+    maps 'A'..'Z' to 'a'..'z', `toUpperCase` maps 'a'..'z' to 'A'..'Z', every other char to itself -/
+theorem case_maps : (∀ c, c < 256 → toLower c = if 65 ≤ c ∧ c ≤ 90 then c + 32 else c) ∧
+    (∀ c, c < 256 → toUpper c = if 97 ≤ c ∧ c ≤ 122 then c - 32 else c) :=
+  ⟨lower_map, upper_map⟩
+
 /-- the range `trim` keeps (as computed by the two scanning loops of the C++ code) is the value
     without its leading and trailing chars of the set -/
 theorem trim_spec (chars c : List Nat) :
